@@ -13,6 +13,33 @@ CLAIMS = {
          "exactly-full stack are validated by running real hidc output on the Lean VM against the reference machine (all 65536 16-bit values).",
          "machine-checked proof (Lean 4) over translator-regenerated library code + differential validation", "6 C17"),
 }
+CLAIMS.update({
+ 'C01': ("proof", "Proof, partial. Proved (Lean, all word sizes and values): both machines are instances of one prophetic semantics whose "
+         "backtracking driver is sound (run_sound), so every VM / reference-machine verdict is a statement about Exec and Halts; committed "
+         "traces are unique; the generator's arith_map/compare_map (regenerated each run) agree with the reference operators including "
+         "division by zero; reaching all_is_win is [flag win] + terminal loop; write(int) is correct. NOT proved: semantic preservation of "
+         "whole programs - validated by running real hidc output on the Lean VM against the reference machine on generated programs, the "
+         "examples and the 52 upstream recorded outputs.", "machine-checked proof (Lean 4) of semantics framework, tables and library + differential validation of whole programs", "6 C01"),
+ 'C02': ("proof", "Proof, partial. The construct laws (undo/preempt/stop/?? as Turing jumps: taken iff the other branch Defeats; a caught "
+         "defeat restores environment, continuation and real defeat) are theorems about the reference semantics; the generic jump/Reach "
+         "calculus and driver soundness are proved once for source and target. Whole programs and histories of try blocks are validated "
+         "differentially (history templates, defeat inside defeat functions, ?? into globals).", "machine-checked proof (Lean 4) of the construct laws + differential validation", "6 C02"),
+ 'C03': ("proof", "Proof, partial. Proved for the regenerated library and tables, all w>=2: the win/error/fault entry points never halt and "
+         "emit exactly their flags; halt_inversion is logical negation on all ten conditional halts; goto never commits its halt; a VM "
+         "verdict `halted` would exhibit Halts init (driver soundness). Whole-program non-halting is validated: no generated program in any "
+         "build ever yields a committed halt.", "machine-checked proof (Lean 4) + exhaustive-outcome validation on generated programs", "6 C03"),
+ 'C04': ("proof", "Proof, partial. Proved for all w and values: the function-entry stack guard passes iff the frame fits (no wrap), the "
+         "unsigned index check is the two-sided bounds check, sane lengths cannot wrap, write(int) touches only its registers and digit "
+         "buffer. The whole-program invariant is validated by the Lean access monitor at the minimal succeeding stack size S+8,S+1,S,S-1.",
+         "machine-checked proof (Lean 4) of guard templates and library footprint + monitored execution at tight stacks", "6 C04"),
+ 'C05': ("proof", "Proof of exactness for every guard template (division, index, length, stack): passes iff the condition holds, otherwise "
+         "exactly [flag kind, flag error] then the terminal loop, before the guarded instruction - all w>=2, all operand values. The "
+         "templates are tied to the generator by a conformance check on every compiled program; placement in whole programs is validated "
+         "by fault injection over operator x element type x storage class x access form.", "machine-checked proof (Lean 4) of guard templates + conformance + fault injection", "6 C05"),
+ 'C15': ("proof", "Proof, partial. guards_are_observers: each runtime check that passes hands over exactly the memory it found (the "
+         "scratch write of the stack guard is on the path not taken) - all w, all values. Equality of unchecked and checked behaviour on "
+         "fault-free whole programs is validated by running both builds.", "machine-checked proof (Lean 4) of guard templates + two-build differential", "6 C15"),
+})
 PENDING = {}
 def main():
     props = [json.loads(l) for l in open(os.path.join(VERIF, 'properties.jsonl'))]
